@@ -248,7 +248,11 @@ func runOneMutant(id string) int {
 			}()
 			for _, o := range r.Obs {
 				if o.Status == "violation" || o.Status == "undecided" {
-					fired = append(fired, o.Rule+"@"+o.Pos+" "+o.Key)
+					line := o.Rule + "@" + o.Pos + " " + o.Key
+					if os.Getenv("MB_VERBOSE") != "" {
+						line += " :: " + o.Msg
+					}
+					fired = append(fired, line)
 				}
 			}
 		}
